@@ -281,6 +281,26 @@ Section PwValid.
     else Ok (map (option_map PCustom) vals, r).
   Proof. reflexivity. Qed.
 
+  Lemma pw_point_choices_eq : forall k cands dist srt nm lits a forced col r,
+    pw_point R G kd ws tgt (Choices k cands dist srt nm lits) a forced col r =
+        (let n := length cands in
+         let old := map (fun o => match o with Some (PChoices cs) => Some cs | _ => None end) col in
+         let oldv := map (option_map (map fst)) old in
+         let merged := (tgt a || forced) && negb (numeric kd) && negb (all_none old) in
+         rbind (if merged
+                then rbind (merge_choice R G kd ws k dist srt oldv r) (fun dc => Ok (map (fun _ => Some (fst dc)) old, snd dc))
+                else Ok (oldv, r)) (fun nv =>
+         let newv := fst nv in
+         let changed := fun (j : nat) =>
+           merged && existsb (fun ov => match ov with
+                                        | (Some o, Some v) => negb (nth j o n =? nth j v n)
+                                        | _ => true end) (combine oldv newv) in
+         rbind (pw_subs R (fun j c cand lives r0 =>
+                             pw_space R G kd ws tgt cand (a ++ (if k =? 1 then [] else [j]) ++ [c]) (forced || changed j) lives r0)
+                          k cands old newv (snd nv)) (fun sb =>
+         Ok (pw_assemble newv (fst sb), snd sb)))).
+  Proof. reflexivity. Qed.
+
   Lemma pw_both :
     (forall s a forced ps r outs r', okp (fun d => valid s d = true) ps ->
        pw_space R G kd ws tgt s a forced ps r = Ok (outs, r') -> okp (fun d => valid s d = true) outs) /\
